@@ -15,6 +15,7 @@ import eevent
 import elin
 import evlm
 import edef
+import eptr
 import ereduce
 import ecanon
 
@@ -50,5 +51,7 @@ def run(ctx, F, dm=True):
     n = elin.check_removal_guards(ctx, F)
     ctx.floor("E-LIN.rcguard", "try_remove_node bodies", n, 2)
     ecanon.check_id_split(ctx, F)
+    n = eptr.run(ctx, F)
+    ctx.floor("E-PTR.tagbits", "interpreted mask / accessor situations", n, 11)
     n = ecanon.check_ptr_split(ctx, F)
     ctx.floor("E-CANON.ptrsplit", "is_inner() branches of the pointer-based manager", n, 6)
